@@ -1,9 +1,150 @@
 /- Driver ops for the heap-level formatting model (`PypyrModel/FmtHeap.lean`), area "heap".
-   All ops here are prefixed `fmt…` (another builder may add further heap ops). -/
+   Ops prefixed `fmt…`: formatting heap (C09).  Ops prefixed `run…`: the run heap of
+   `PypyrModel/Heap.lean` (C12), namespace `Pypyr.OpRunHeap` below. -/
 import Lean.Data.Json
 import PypyrModel.Json
 import PypyrModel.Fmt
 import PypyrModel.FmtHeap
+import PypyrModel.Heap
+
+/-! ## run heap (C12) -/
+namespace Pypyr.OpRunHeap
+open Lean (Json JsonNumber)
+open Pypyr.RunHeap
+
+def natJ (n : Nat) : Json := Json.num (JsonNumber.fromNat n)
+
+/-- Atoms only: None, bool, int, float, str, bytes. -/
+def isAtom : Val → Bool
+  | .none | .bool _ | .int _ | .flt _ _ | .str _ | .bytes _ => true
+  | _ => false
+
+def bcellOfJson (j : Json) : Except String BCell := do
+  if let .ok v := j.getObjVal? "leaf" then
+    let w ← Val.ofJson v
+    if isAtom w then return .leaf w else throw "leaf cell holds a non-atom"
+  if let .ok x := j.getObjVal? "list" then
+    return .list (← (← x.getArr?).toList.mapM jsonNat?)
+  if let .ok x := j.getObjVal? "dict" then
+    let ps ← (← x.getArr?).toList.mapM fun p => do
+      match p with
+      | .arr #[k, v] => pure ((← k.getStr?), (← jsonNat? v))
+      | _ => throw "bad dict cell pair"
+    return .dict ps
+  throw s!"bad block cell {j.compress}"
+
+/-- Well-formed block: non-empty, every position it mentions exists. -/
+def blockOk (b : Block) : Bool :=
+  !b.isEmpty && b.all fun c => match c with
+    | .leaf _ => true
+    | .list js => js.all (· < b.length)
+    | .dict kjs => kjs.all (·.2 < b.length)
+
+def blockOfJson (j : Json) : Except String Block := do
+  let b ← (← j.getArr?).toList.mapM bcellOfJson
+  if blockOk b then pure b else throw "block is empty or has a dangling position"
+
+def regionOfJson (j : Json) : Except String Region := do
+  let g ← (← j.getObjVal? "g").getStr?
+  match g with
+  | "config" => pure .config
+  | "defn" => pure (.defn (← jsonNat? (← j.getObjVal? "n")))
+  | "run" => pure (.run (← jsonNat? (← j.getObjVal? "n")))
+  | _ => throw s!"bad region {g}"
+
+def refOfJson (j : Json) : Except String Ref := do
+  pure ⟨← regionOfJson j, ← jsonNat? (← j.getObjVal? "i")⟩
+
+def refToJson (x : Ref) : Json :=
+  match x.reg with
+  | .config => Json.mkObj [("g", Json.str "config"), ("i", natJ x.idx)]
+  | .defn p => Json.mkObj [("g", Json.str "defn"), ("n", natJ p), ("i", natJ x.idx)]
+  | .run r => Json.mkObj [("g", Json.str "run"), ("n", natJ r), ("i", natJ x.idx)]
+
+def segOfJson (j : Json) : Except String Seg :=
+  match j with
+  | .str k => pure (.key k)
+  | _ => do pure (.idx (← jsonNat? j))
+
+def pathOfJson (j : Json) : Except String Path := do
+  (← j.getArr?).toList.mapM segOfJson
+
+def opOfJson (j : Json) : Except String Op := do
+  let o ← (← j.getObjVal? "o").getStr?
+  let key := fun (f : String) => do (← j.getObjVal? f).getStr?
+  let blk := fun (f : String) => do blockOfJson (← j.getObjVal? f)
+  match o with
+  | "start" => pure (.start (← blk "b"))
+  | "inCopy" => pure (.inCopy (← key "key") (← refOfJson (← j.getObjVal? "src")))
+  | "inAlias" => pure (.inAlias (← key "key") (← refOfJson (← j.getObjVal? "src")))
+  | "configvarsCopy" => pure .configvarsCopy
+  | "configvarsAlias" => pure .configvarsAlias
+  | "unsetIn" => pure (.unsetIn (← key "key"))
+  | "setKey" => pure (.setKey (← key "key") (← blk "b"))
+  | "appendAt" => pure (.appendAt (← pathOfJson (← j.getObjVal? "path")) (← blk "b"))
+  | "extendAt" => pure (.extendAt (← pathOfJson (← j.getObjVal? "path"))
+      (← (← (← j.getObjVal? "bs").getArr?).toList.mapM blockOfJson))
+  | "addAt" => pure (.addAt (← pathOfJson (← j.getObjVal? "path")) (← blk "b"))
+  | "dictSetAt" => pure (.dictSetAt (← pathOfJson (← j.getObjVal? "path")) (← key "k") (← blk "b"))
+  | "copyKey" => pure (.copyKey (← key "src") (← key "dst"))
+  | "shortcutArgsCopy" => pure (.shortcutArgsCopy (← refOfJson (← j.getObjVal? "src")))
+  | _ => throw s!"unknown heap op {o}"
+
+def arenaEq (a b : Arena) : Bool := decide (a = b)
+
+/-- every shared arena of `h` equals that of `h0` (definitions `0 … n-1` and config) -/
+def sharedSame (n : Nat) (h0 h : Heap) : Bool :=
+  (List.range n).all (fun p => arenaEq (h.arena (.defn p)) (h0.arena (.defn p))) &&
+    arenaEq (h.arena .config) (h0.arena .config)
+
+/-- `runExec` {defs: [block…], cfg: block, sched: [[r, op]…], fuel?, watch?: [ref…]} →
+    {steps: [{r, applied, ctx, foreign} after every operation, for the run that moved],
+     sharedSame: every definition/config arena is still what the loader produced,
+     sharedSameAt: index of the first operation after which that stopped being true (or null),
+     watch: deep value of each watched address at the end, fixed: all operations are `Op.fixed`} -/
+def runExec (j : Json) : Except String Json := do
+  let defs ← (← (← j.getObjVal? "defs").getArr?).toList.mapM blockOfJson
+  let cfg ← blockOfJson (← j.getObjVal? "cfg")
+  let fuel := match j.getObjVal? "fuel" with
+    | .ok f => (jsonNat? f).toOption.getD 64
+    | .error _ => 64
+  let sched ← (← (← j.getObjVal? "sched").getArr?).toList.mapM fun e => do
+    match e with
+    | .arr #[r, o] => pure ((← jsonNat? r), (← opOfJson o))
+    | _ => throw "bad schedule entry"
+  let watch ← match j.getObjVal? "watch" with
+    | .ok w => (← w.getArr?).toList.mapM refOfJson
+    | .error _ => pure []
+  let h0 := Heap.init defs cfg
+  let n := defs.length
+  let rec go (h : Heap) (s : List (Nat × Op)) (i : Nat) (acc : List Json) (firstBad : Option Nat) :
+      List Json × Heap × Option Nat :=
+    match s with
+    | [] => (acc.reverse, h, firstBad)
+    | (r, op) :: rest =>
+      let applied := (effect h r op).isSome
+      let h1 := step h r op
+      let obs := Json.mkObj [("r", natJ r), ("applied", Json.bool applied),
+        ("ctx", (deepVal fuel h1 (root r)).toJson),
+        ("foreign", Json.arr ((foreignReach (4 * fuel + 4096) h1 r).map refToJson).toArray)]
+      let fb := match firstBad with
+        | some k => some k
+        | none => if sharedSame n h0 h1 then none else some i
+      go h1 rest (i + 1) (obs :: acc) fb
+  let (steps, hEnd, firstBad) := go h0 sched 0 [] none
+  pure (Json.mkObj [
+    ("steps", Json.arr steps.toArray),
+    ("sharedSame", Json.bool (sharedSame n h0 hEnd)),
+    ("sharedSameAt", match firstBad with | some k => natJ k | none => Json.null),
+    ("watch", Json.arr (watch.map fun x => (deepVal fuel hEnd x).toJson).toArray),
+    ("fixed", Json.bool (sched.all fun e => e.2.fixed))])
+
+def handle (op : String) (j : Json) : Except String Json :=
+  match op with
+  | "runExec" => runExec j
+  | _ => .error s!"unknown op {op}"
+
+end Pypyr.OpRunHeap
 
 namespace Pypyr.OpHeap
 open Lean (Json JsonNumber)
@@ -120,6 +261,7 @@ def handle (op : String) (j : Json) : Except String Json := do
       if !keysHashable r then throw "out of domain: result has an unhashable key or set member"
       pure (Json.mkObj ([("ok", r.toJson), ("resBraceFree", Json.bool (braceFree r)),
                          ("resWf", Json.bool (wfVal r))] ++ inPreds))
-  | _ => .error s!"unknown op {op}"
+  | _ =>
+    if op.startsWith "run" then Pypyr.OpRunHeap.handle op j else .error s!"unknown op {op}"
 
 end Pypyr.OpHeap
